@@ -39,7 +39,7 @@ from .util_batch import (ALGEBRA, DIM, DT, GROUPS, LTYPES, MANIFOLD, Pools, all_
 
 META = {
     "rule": "lshape pairs: ALL 7225 ordered pairs of lshapes of rank<=3 with extents in {0,1,2,3} (2479 broadcastable, "
-            "4746 not) — broadcast_inputs on every pair every run; op sites: every pair with >=1 (group, op) site per run "
+            "4746 not) — broadcast_inputs on every pair every run; op sites: every pair with 3 of the 8 group ops (+ alg_add on every second pair) per run, group and ops "
             "chosen by (pair, op, seed) rotation plus all 36 sites on a core set of pairs (quick), the full cross product "
             "(thorough); unary / constructors: all 85 lshapes x 8 ltypes; handled functions: every name of the regenerated "
             "list x several call recipes x random lshape (rank 0..3, extents 0..3) x rotating ltype/dtype; retain: random "
@@ -433,8 +433,8 @@ def gen_bcast_cases(ctx: Ctx, good_pairs, bad_pairs):
         for pi, (sa, sb) in enumerate(good_pairs):
             for oi, op in enumerate(ops_g):
                 g = GROUPS[(pi + oi + ctx.seed) % 4]
-                if (pi * 5 + oi + ctx.seed) % 8 >= 4:
-                    continue        # four of the eight group ops per pair and run (rotating with pair, op, seed)
+                if (pi * 5 + oi + ctx.seed) % 8 >= 3:
+                    continue        # three of the eight group ops per pair and run (rotating with pair, op, seed)
                 cases.append(mk((g, op), sa, sb))
             if (pi + ctx.seed) % 2:
                 cases.append(mk((ALGEBRA[GROUPS[(pi + ctx.seed) % 4]], "alg_add"), sa, sb))
